@@ -626,6 +626,18 @@ func (c *Cache) ServeDNS(ctx context.Context, ch *middleware.Chain) {
 				leaderKey := dedupKey
 				leaderGeneration := generation
 				defer c.wg.DoneGeneration(leaderKey, leaderGeneration)
+				// The failure lookup above and this election are separate
+				// steps: a whole probe generation can start, fail, re-arm the
+				// RFC 9520 backoff and complete in between. A newly elected
+				// leader must honor that failure exactly as a woken follower
+				// does instead of leading a second probe inside the active
+				// backoff. The deferred DoneGeneration releases the generation.
+				if hit, ok := c.store.LookupFailure(req, clientScope); ok {
+					c.metrics.Hit()
+					failureCacheHits.Inc()
+					c.handleFailureHit(ctx, ch, hit)
+					return
+				}
 				break
 			}
 
@@ -696,6 +708,16 @@ func (c *Cache) ServeDNS(ctx context.Context, ch *middleware.Chain) {
 			}
 			retryKey, retry := c.store.FailureRetryKey(req, clientScope)
 			if !retry {
+				// FailureRetryKey also reports false for a failure that a
+				// concurrent probe (re)recorded after the lookup above. Serve
+				// that active failure; only a state that is really gone lets
+				// an ordinary follower fall through to the authority.
+				if hit, ok := c.store.LookupFailure(req, clientScope); ok {
+					c.metrics.Hit()
+					failureCacheHits.Inc()
+					c.handleFailureHit(ctx, ch, hit)
+					return
+				}
 				break
 			}
 			failureProbe = true
